@@ -22,6 +22,14 @@
 (*    individual deletes to one range tombstone (DeleteRangeThreshold =    *)
 (*    100), with session-owned keys before ("a") and after ("a/b", "b")    *)
 (*    the block;                                                           *)
+(*  - a put under a session may use every other feature of a put: with     *)
+(*    sequence-key deltas the record is stored under a GENERATED key       *)
+(*    (OxiaDb!SeqNewKey: request key + "-<number>" per delta); the request *)
+(*    key is only the prefix and may itself hold a record, plain or        *)
+(*    ephemeral.  Ownership, the shadow key and the index entries belong   *)
+(*    to the generated key (EffKey), and that is the record the end of     *)
+(*    the session removes; the record under the prefix is not touched      *)
+(*    (OwnerFollowsWriter, OthersUntouched, CloseExact);                   *)
 (*  - cleanup (expiry or CloseSession) is TWO steps, as in session.delete: *)
 (*    the session's shadow keys are listed (ListBlock), then a second      *)
 (*    write deletes the listed records, the session record and the shadow  *)
@@ -189,12 +197,19 @@ LeaderChangeEnabled(sys) == DOMAIN sys.pend = {}
 (* delete then removes a record the session no longer owns) or (b) puts a key that was not  *)
 (* listed under session s (the record keeps its session id, loses its shadow key and        *)
 (* outlives the session).                                                                   *)
+(* A put with sequence-key deltas writes the record under a GENERATED key (request key + "-<number>"...),  *)
+(* which is not the key of the request: it is in pattern (b) whenever it names the session under cleanup    *)
+(* (the generated record cannot have been listed - unless it replaces a listed one, which is harmless and    *)
+(* attributed all the same), and it can only be in pattern (a) when a listed key continues its prefix.       *)
 InSeq(q, x) == \E j \in 1..Len(q) : q[j] = x
 Race(sys, req) ==
     \E s \in DOMAIN sys.pend : \E i \in 1..Len(req.puts) :
         LET p == req.puts[i] IN
-        \/ (InSeq(sys.pend[s].keys, p.key) /\ p.sess # s)
-        \/ (~InSeq(sys.pend[s].keys, p.key) /\ p.sess = s)
+        IF p.deltas # <<>>
+        THEN \/ p.sess = s
+             \/ \E j \in 1..Len(sys.pend[s].keys) : HasPrefix(sys.pend[s].keys[j], p.key \o <<DASH>>)
+        ELSE \/ (InSeq(sys.pend[s].keys, p.key) /\ p.sess # s)
+             \/ (~InSeq(sys.pend[s].keys, p.key) /\ p.sess = s)
 
 -----------------------------------------------------------------------------
 (* Observation                                                             *)
@@ -247,40 +262,78 @@ CloseExact(sys, a, sys2) ==
            /\ sys2.st.idx = sys.st.idx \ UNION {IdxOf(k, sys.st.kv[k]) : k \in own}
            /\ sys2.st.lastVer = sys.st.lastVer
 
-\* ownership follows the last writer: after a request the owner of a key it put (and did not delete again)
-\* is the session named by the last successful put of that key
+(* The key of the record a put writes.  It is the key of the request - except for a put with sequence-key  *)
+(* deltas, whose record gets a key generated by the state machine (db.go:applyPut, generateUniqueKeyFrom-    *)
+(* Sequences): the request key is only the PREFIX of the sequence, and the response carries the real key.    *)
+(* Everything the property says about "the record written under a session" - who owns it, which shadow key   *)
+(* stands for it, what the end of the session removes - is about THAT key; the record that may be stored     *)
+(* under the prefix itself is another record.                                                                *)
+IsSeq(p)      == p.deltas # <<>>
+EffKey(p, r)  == IF IsSeq(p) THEN r.key ELSE p.key
+PutOk(a, i)   == a.res.puts[i].st = "OK"
+WrittenKeys(a) == {EffKey(a.req.puts[i], a.res.puts[i]) : i \in {j \in 1..Len(a.req.puts) : PutOk(a, j)}}
+
+\* ownership follows the last writer: after a request the owner of a record it wrote (and did not delete
+\* again) is the session named by the last successful put of that record, and exactly that session's shadow
+\* key stands for it
 OwnerFollowsWriter(sys, a, sys2) ==
     a.a = "Write" =>
         \A i \in 1..Len(a.req.puts) :
             LET p == a.req.puts[i]
-                last == ~\E j \in (i + 1)..Len(a.req.puts) : a.req.puts[j].key = p.key /\ a.res.puts[j].st = "OK"
-            IN (a.res.puts[i].st = "OK" /\ last /\ p.key \in DOMAIN sys2.st.kv) =>
-                  /\ sys2.st.kv[p.key].sess = p.sess
-                  /\ {x \in sys2.st.shadow : x[2] = p.key} = (IF p.sess = NoSess THEN {} ELSE {<<p.sess, p.key>>})
+                k == EffKey(p, a.res.puts[i])
+                last == ~\E j \in (i + 1)..Len(a.req.puts) : PutOk(a, j) /\ EffKey(a.req.puts[j], a.res.puts[j]) = k
+            IN (PutOk(a, i) /\ last /\ k \in DOMAIN sys2.st.kv) =>
+                  /\ sys2.st.kv[k].sess = p.sess
+                  /\ {x \in sys2.st.shadow : x[2] = k} = (IF p.sess = NoSess THEN {} ELSE {<<p.sess, k>>})
 
-\* writes naming a dead session are rejected (and only those: a put without version condition that names a
-\* live session is accepted)
+\* a put with sequence-key deltas never writes the record of its prefix: the generated key continues the
+\* request key with "-<number>" parts, one per delta
+SeqKeyGenerated(sys, a, sys2) ==
+    a.a = "Write" =>
+        \A i \in 1..Len(a.req.puts) :
+            (IsSeq(a.req.puts[i]) /\ PutOk(a, i)) =>
+                LET k == a.res.puts[i].key IN
+                /\ HasPrefix(k, a.req.puts[i].key \o <<DASH>>)
+                /\ Len(SplitDash(SubSeq(k, Len(a.req.puts[i].key) + 2, Len(k)))) = Len(a.req.puts[i].deltas)
+
+\* writes naming a dead session are rejected - whatever else the put asks for (a version condition, a
+\* generated key, index entries) - and only those: a put without version condition that names a live session
+\* is accepted.  (A put that fails for another reason first reports that reason.)
 DeadRejected(sys, a, sys2) ==
     a.a = "Write" =>
         /\ \A i \in 1..Len(a.req.puts) :
               LET p == a.req.puts[i] IN
-              (p.sess # NoSess /\ p.deltas = <<>>) =>
+              p.sess # NoSess =>
                  IF SessKey(p.sess) \in DOMAIN sys.st.kv
-                 THEN p.exp = NoExp => a.res.puts[i].st = "OK"
-                 ELSE a.res.puts[i].st = "SESSION_DOES_NOT_EXIST"
-        /\ ((\A i \in 1..Len(a.req.puts) : a.res.puts[i].st # "OK") /\ a.req.dels = <<>> /\ a.req.rngs = <<>>)
+                 THEN (p.exp = NoExp /\ ~IsSeq(p)) => PutOk(a, i)
+                 ELSE /\ ~PutOk(a, i)
+                      /\ (p.exp = NoExp /\ ~IsSeq(p)) => a.res.puts[i].st = "SESSION_DOES_NOT_EXIST"
+        /\ ((\A i \in 1..Len(a.req.puts) : ~PutOk(a, i)) /\ a.req.dels = <<>> /\ a.req.rngs = <<>>)
               => sys2.st = sys.st
 
-\* a record written under a session exists until it is overwritten, deleted, or the session ends
-Touches(req, k) == \/ \E i \in 1..Len(req.puts) : req.puts[i].key = k
-                   \/ \E i \in 1..Len(req.dels) : req.dels[i].key = k
-                   \/ \E i \in 1..Len(req.rngs) : InRange(k, req.rngs[i].s, req.rngs[i].e)
+\* a record written under a session exists until it is overwritten, deleted, or the session ends.
+\* (A request touches the records its successful puts WRITE - for a sequence put that is the generated key,
+\* not the prefix - and the keys its deletes and range deletes name.)
+Touches(a, k) == \/ \E i \in 1..Len(a.req.puts) : IF IsSeq(a.req.puts[i]) THEN PutOk(a, i) /\ a.res.puts[i].key = k
+                                                    ELSE a.req.puts[i].key = k
+                 \/ \E i \in 1..Len(a.req.dels) : a.req.dels[i].key = k
+                 \/ \E i \in 1..Len(a.req.rngs) : InRange(k, a.req.rngs[i].s, a.req.rngs[i].e)
 EphemeralStable(sys, a, sys2) ==
     \A k \in DOMAIN sys.st.kv :
         LET e == sys.st.kv[k] IN
         (e.sess # NoSess /\ ~(k \in DOMAIN sys2.st.kv /\ sys2.st.kv[k] = e)) =>
-            \/ (a.a = "Write" /\ Touches(a.req, k))
+            \/ (a.a = "Write" /\ Touches(a, k))
             \/ (a.a = "Cleanup" /\ a.s = e.sess)
+
+\* ... and only they do: a client request changes no record, no ownership (shadow key) and no index entry of
+\* a key it does not touch - in particular a sequence put leaves the record stored under its prefix, and
+\* whoever owns it, alone
+OthersUntouched(sys, a, sys2) ==
+    a.a = "Write" =>
+        /\ \A k \in (DOMAIN sys.st.kv \cup DOMAIN sys2.st.kv) :
+              (~Internal(k) /\ ~Touches(a, k)) => (k \in DOMAIN sys.st.kv /\ k \in DOMAIN sys2.st.kv /\ sys2.st.kv[k] = sys.st.kv[k])
+        /\ \A x \in (sys.st.shadow \cup sys2.st.shadow) : ~Touches(a, x[2]) => (x \in sys.st.shadow /\ x \in sys2.st.shadow)
+        /\ \A x \in (sys.st.idx \cup sys2.st.idx) : ~Touches(a, x.p) => (x \in sys.st.idx /\ x \in sys2.st.idx)
 
 \* sessions time out only after a full timeout without heartbeats on the current leader - and then they do
 Lifetime(sys, a, sys2) ==
@@ -301,6 +354,7 @@ ReadOnlyCalls(sys, a, sys2) == a.a \in {"KeepAlive", "Tick", "CloseBegin", "Lead
 
 StepProps(sys, a, sys2) ==
     /\ CloseExact(sys, a, sys2) /\ OwnerFollowsWriter(sys, a, sys2) /\ DeadRejected(sys, a, sys2)
+    /\ SeqKeyGenerated(sys, a, sys2) /\ OthersUntouched(sys, a, sys2)
     /\ EphemeralStable(sys, a, sys2) /\ Lifetime(sys, a, sys2) /\ SurviveLeaderChange(sys, a, sys2)
     /\ ReadOnlyCalls(sys, a, sys2)
 
